@@ -66,8 +66,12 @@ def gen_plan(rng, tag, quiet):
 def gen_crash_rules(rng, cmd):
     if cmd == "clean":
         return [{"id": "crash", "call": "unlink", "pat": "*", "nth": str(rng.range(1, 3)), "act": rng.choice(["kill", "killafter"])}]
-    call, pat, hi = {"run": rng.weighted([(("write", "*.mmm", 14), 4), (("open", "*.mmm", 6), 2), (("read", "*.mmm", 8), 1), (("write", "<stdout>", 6), 1)]),
-                     "compile": rng.weighted([(("write", "*.mmm", 20), 4), (("open", "*.mmm", 8), 2), (("read", "*.ms", 6), 1)]),
+    # the kill point is the k-th call on a bytecode file, or on *any* file of the world (staging files, lock files and whatever
+    # else a writer may use have names the simulator cannot guess), or a rename (before / after the new name exists)
+    call, pat, hi = {"run": rng.weighted([(("write", "*.mmm", 14), 4), (("open", "*.mmm", 6), 2), (("read", "*.mmm", 8), 1), (("write", "<stdout>", 6), 1),
+                                          (("write", "*", 20), 2), (("open", "*", 12), 2), (("rename", "*", 4), 1)]),
+                     "compile": rng.weighted([(("write", "*.mmm", 20), 4), (("open", "*.mmm", 8), 2), (("read", "*.ms", 6), 1),
+                                              (("write", "*", 24), 3), (("open", "*", 14), 3), (("rename", "*", 5), 2)]),
                      "execute": rng.weighted([(("read", "*.mmm", 8), 2), (("open", "*.mmm", 4), 1), (("write", "<stdout>", 6), 1)])}[cmd]
     k = min(rng.range(1, hi), rng.range(1, hi))
     if call == "write" and pat == "*.mmm" and rng.chance(1, 2):
@@ -411,8 +415,8 @@ def gen_text_cases(prop, tier, seed, count):
             if kind == "crash":
                 op["cmd"] = rng.weighted([("transpile", 4), ("compile_text", 3), ("execute_t", 2), ("execute", 1)])
                 op["plan"], op["gc"] = gen_plan(rng, "k%d" % j, True)
-                call, pat, hi = {"transpile": rng.weighted([(("write", "*.mmm", 20), 4), (("read", "*.mmm", 8), 2), (("open", "*.mmm", 3), 2)]),
-                                 "compile_text": rng.weighted([(("write", "*.mmm", 20), 4), (("open", "*.mmm", 3), 1)]),
+                call, pat, hi = {"transpile": rng.weighted([(("write", "*.mmm", 20), 4), (("read", "*.mmm", 8), 2), (("open", "*.mmm", 3), 2), (("write", "*", 20), 2), (("open", "*", 6), 2), (("rename", "*", 2), 1)]),
+                                 "compile_text": rng.weighted([(("write", "*.mmm", 20), 4), (("open", "*.mmm", 3), 1), (("write", "*", 20), 2), (("open", "*", 6), 1), (("rename", "*", 2), 1)]),
                                  "execute_t": rng.weighted([(("write", "*.mmm", 20), 4), (("read", "*.mmm", 10), 2), (("open", "*.mmm", 4), 2)]),
                                  "execute": rng.weighted([(("read", "*.mmm", 8), 2), (("write", "<stdout>", 4), 1)])}[op["cmd"]]
                 k = min(rng.range(1, hi), rng.range(1, hi))
